@@ -526,6 +526,7 @@ def concatenate(arrays, axis=0, _no_check=False, align=False, **kwargs):
     if type(axis) is not int:
         axis = arrays[0].dims.index(axis)
     dim = arrays[0].dims[axis]
+    axis = arrays[0].dims.index(dim) # also for a negative position
 
     # align secondary axes prior to concatenate
     # TODO: just encourage user to use align outside this function
